@@ -1,9 +1,10 @@
 (* C04 — a crash at any write can be recovered exactly by a reorg to a durable height.
    Statements only.  RocksDB is modelled as a map with atomic single-key writes of which a
    crash keeps a prefix (torn writes, fsync and power loss are RocksDB's contract). *)
-From Brc.Model Require Import Base History Table BlockTable Store.
-From Brc.Proofs Require Import HistoryP KvP TableP BlockTableP StoreP.
+From Brc.Model Require Import Base History Table BlockTable Store Crash TieCrash.
+From Brc.Proofs Require Import HistoryP KvP TableP BlockTableP StoreP CrashP.
 From BrcGen Require Import Consts.
+From Coq Require Import Sorting.Permutation.
 
 (* Versioned tables, key by key (keys are independent).  A commit(b) writes two rows per
    cached key.  Whatever subset of them reached the disk before the crash — nothing, the
@@ -71,6 +72,174 @@ Example C04_nonvacuous :
   end.
 Proof. vm_compute. reflexivity. Qed.
 
+(* ============================ the whole store ============================
+   Model/Crash.v lists the ATOMIC persistent writes of Brc20ProgDatabase::commit_changes and
+   ::reorg in the order the code issues them ([commit_script_ord], [reorg_script_ord]; [es] is
+   the order in which the HashMaps happen to iterate: any permutation of the cached entries).
+   A crash keeps a prefix [p] of the script; [reopen] starts a process on the files (every cache
+   empty, no cached height); [engine_reorg] is the engine's reorg: its guard (refuse / no-op /
+   do) in front of the store's reorg.
+
+   [crun W wf_init st_empty ops = Some (st, s)]: [ops] is a history of store operations from
+   an empty database that follows the block protocol ([wf_run]: stamps, one block at a time,
+   commit/reorg only between blocks, reorg targets inside the window) and in which
+   set_block_hash puts the height row before it moves the height, and reorgs go to existing
+   blocks; [s] is the store it leads to.  (Evaluated by Coq on the recorded traces of the real
+   engine in the C04 tie.)  [w_m st] is the highest block ever finalised, [fs_run fs_init ops]
+   the per-key "value as of block m" functions of the history. *)
+
+(* the scripts ARE commit_changes / reorg: running a whole script on the files gives the files
+   of the model's sto_commit / sto_reorg *)
+Theorem C04_commit_script_is_commit :
+  forall (s : store) (es : kv vhist) (s' : store),
+    ksorted (t_db (st_t s)) -> ksorted (t_cdb (st_t s)) -> NoDup (map fst (t_cache (st_t s))) ->
+    Permutation es (t_cache (st_t s)) ->
+    sto_commit W s = Ok s' ->
+    exists ws, commit_script_ord W s es = Ok ws /\ apply_pwrites (persistent s) ws = persistent s'.
+Proof. exact (commit_script_ord_correct W). Qed.
+Print Assumptions C04_commit_script_is_commit.
+
+Theorem C04_reorg_script_is_reorg :
+  forall (s : store) (n : N) (t1 : @table N) (es1 : kv vhist) (s' : store),
+    bsorted s -> ksorted (t_db (st_t s)) -> ksorted (t_cdb (st_t s)) -> NoDup (map fst (t_cache (st_t s))) ->
+    reorg_keys (st_t s) n (map fst (t_cdb (st_t s)) ++ map fst (t_cache (st_t s))) = Ok t1 ->
+    Permutation es1 (t_cache t1) ->
+    sto_reorg W s n = Ok s' ->
+    exists ws, reorg_script_ord W s n es1 = Ok ws /\ apply_pwrites (persistent s) ws = persistent s'.
+Proof. exact (reorg_script_ord_correct W). Qed.
+Print Assumptions C04_reorg_script_is_reorg.
+
+(* A crash after ANY prefix [p] of the writes of commit_changes, reopen, and the engine's reorg
+   to ANY block n whose height row was durable before the crash and that is inside the window:
+   the reorg is not refused (it is a no-op only when nothing but flushes had happened and n is
+   the committed height), and afterwards every versioned key reads its value as of block n,
+   the three block tables hold exactly the durable rows up to n, the height is n, and the
+   store invariant of C01/C03 holds again (so everything proved for uncrashed runs applies to
+   the continuation). *)
+Theorem C04_store_crash_in_commit_recovers :
+  forall (ops : list sop) (st : wfst) (s : store) (es : kv vhist) (ws p q : list pwrite) (n : N),
+    crun W wf_init st_empty ops = Some (st, s) ->
+    w_dirty st = false ->
+    Permutation es (t_cache (st_t s)) ->
+    commit_script_ord W s es = Ok ws -> ws = p ++ q ->
+    kv_get (b_db (st_hash s)) n <> None ->
+    w_m st <= n + W ->
+    exists s2,
+      engine_reorg W (reopen (apply_pwrites (persistent s) p)) n = Ok s2 /\
+      (forall k, t_latest (st_t s2) k = Ok (fst (fs_run fs_init ops) k n)) /\
+      (forall x, b_get (st_hash s2) x = if x <=? n then kv_get (b_db (st_hash s)) x else None) /\
+      (forall x, b_get (st_blk s2) x = if x <=? n then kv_get (b_db (st_blk s)) x else None) /\
+      (forall x, b_get (st_raw s2) x = if x <=? n then kv_get (b_db (st_raw s)) x else None) /\
+      latest_height s2 = n /\ next_height s2 = n + 1 /\
+      SInv W s2 (fun k => s_reorg (fst (fs_run fs_init ops) k) n, fun k => s_reorg (fst (fs_run fs_init ops) k) n)
+           (mkWf (Some n) (w_m st) (Some n) false None).
+Proof. exact (crun_commit_crash W). Qed.
+Print Assumptions C04_store_crash_in_commit_recovers.
+
+(* The same for a crash after ANY prefix of the writes of reorg(n0) (issued by the engine: n0
+   below the height, block n0 exists), then reopen and the engine's reorg to n0 again or to any
+   durable n <= n0 inside the window.  This is the discipline of defect F18: heights persisted
+   first, trimmed last. *)
+Theorem C04_store_crash_in_reorg_recovers :
+  forall (ops : list sop) (st : wfst) (s : store) (n0 : N) (t1 : @table N) (es1 : kv vhist)
+         (ws p q : list pwrite) (n : N),
+    crun W wf_init st_empty ops = Some (st, s) ->
+    w_dirty st = false ->
+    engine_reorg_guard W 0 s n0 = RvDo -> b_get (st_hash s) n0 <> None ->
+    reorg_keys (st_t s) n0 (map fst (t_cdb (st_t s)) ++ map fst (t_cache (st_t s))) = Ok t1 ->
+    Permutation es1 (t_cache t1) ->
+    reorg_script_ord W s n0 es1 = Ok ws -> ws = p ++ q ->
+    kv_get (b_db (st_hash s)) n <> None -> n <= n0 ->
+    w_m st <= n + W ->
+    exists s2,
+      engine_reorg W (reopen (apply_pwrites (persistent s) p)) n = Ok s2 /\
+      (forall k, t_latest (st_t s2) k = Ok (fst (fs_run fs_init ops) k n)) /\
+      (forall x, b_get (st_hash s2) x = if x <=? n then kv_get (b_db (st_hash s)) x else None) /\
+      (forall x, b_get (st_blk s2) x = if x <=? n then kv_get (b_db (st_blk s)) x else None) /\
+      (forall x, b_get (st_raw s2) x = if x <=? n then kv_get (b_db (st_raw s)) x else None) /\
+      latest_height s2 = n /\ next_height s2 = n + 1 /\
+      SInv W s2 (fun k => s_reorg (fst (fs_run fs_init ops) k) n, fun k => s_reorg (fst (fs_run fs_init ops) k) n)
+           (mkWf (Some n) (w_m st) (Some n) false None).
+Proof. exact (crun_reorg_crash W). Qed.
+Print Assumptions C04_store_crash_in_reorg_recovers.
+
+(* "durable before the crash" is what the hypothesis says: a block with a durable height row is
+   at or below the height of the last commit; and up to that height the uncommitted work has
+   not changed any value *)
+Theorem C04_durable_means_committed :
+  forall (ops : list sop) (st : wfst) (s : store) (n : N),
+    crun W wf_init st_empty ops = Some (st, s) ->
+    kv_get (b_db (st_hash s)) n <> None ->
+    exists hc, w_hc st = Some hc /\ n <= hc /\
+               forall k m, m <= hc -> fst (fs_run fs_init ops) k m = snd (fs_run fs_init ops) k m.
+Proof.
+  intros ops st s n Hrun Hn.
+  destruct (crun_inv W ops _ _ _ _ _ (SInv_init W) CInv_init Hrun) as [_ CI].
+  destruct (bt_db _ _ (ci_hash _ _ _ CI) n ltac:(apply kv_get_in_keys; exact Hn)) as (hc & E & Hle).
+  exists hc. split; [exact E|]. split; [exact Hle|]. apply (ci_agree _ _ _ CI hc E).
+Qed.
+Print Assumptions C04_durable_means_committed.
+
+(* Non-vacuity on a concrete multi-key, multi-block store: blocks 0 and 1 committed, blocks 2
+   and 3 finalised; commit_changes crashes after EVERY prefix of its 20 writes; reopen; the
+   engine's reorg to block 1 (durable): keys 1, 2, 3 read 2, 5, nothing; height 1; the rows of
+   blocks 2 and 3 are gone.  The prefix of length 13 ends between the two writes of key 3. *)
+Definition ex_blk (n : N) (writes : list (N * option N)) : list sop :=
+  map (fun w => SV n (fst w) (snd w)) writes
+  ++ [SB 1 n (100 + n); SB 2 n (200 + n); SB 0 n (300 + n); SV n (1000 + n) (Some n); SHash n].
+Definition ex_ops : list sop :=
+  ex_blk 0 [(1, Some 1)] ++ ex_blk 1 [(1, Some 2); (2, Some 5)] ++ [SCommit]
+  ++ ex_blk 2 [(1, Some 3); (2, None)] ++ ex_blk 3 [(3, Some 7)].
+Definition ex_rd (s : store) (k : N) : option N :=
+  match t_latest (st_t s) k with Ok v => v | _ => Some 999999 end.
+Definition ex_ok_at (s2 : store) (n : N) (vals hrows brows : list (option N)) : bool :=
+  list_eqb (opt_eqb N.eqb) (map (ex_rd s2) [1; 2; 3]) vals && (latest_height s2 =? n)
+  && list_eqb (opt_eqb N.eqb) (map (b_get (st_hash s2)) [1; 2; 3]) hrows
+  && list_eqb (opt_eqb N.eqb) (map (b_get (st_blk s2)) [1; 2; 3]) brows.
+
+Example C04_store_nonvacuous_commit :
+  match crun W wf_init st_empty ex_ops with
+  | Some (st, s) =>
+      match commit_script W s with
+      | Ok ws =>
+          Nat.eqb (length ws) 20
+          && match nth 12 ws (PFlush 9), nth 13 ws (PFlush 9) with
+             | PHistPut 3 _, PLatestPut 3 7 => true
+             | _, _ => false
+             end
+          && forallb (fun j =>
+               match engine_reorg W (reopen (apply_pwrites (persistent s) (firstn j ws))) 1 with
+               | Ok s2 => ex_ok_at s2 1 [Some 2; Some 5; None] [Some 301; None; None] [Some 101; None; None]
+               | _ => false
+               end) (seq 0 21)
+      | _ => false
+      end
+  | None => false
+  end = true.
+Proof. vm_compute. reflexivity. Qed.
+
+(* and for a crashed reorg: everything committed (height 3), reorg(1) crashes after every
+   prefix of its writes, reopen, then reorg(1) again, or reorg(0) *)
+Example C04_store_nonvacuous_reorg :
+  match crun W wf_init st_empty (ex_ops ++ [SCommit]) with
+  | Some (st, s) =>
+      match reorg_script W s 1 with
+      | Ok ws =>
+          Nat.ltb 20 (length ws)
+          && forallb (fun j =>
+               match engine_reorg W (reopen (apply_pwrites (persistent s) (firstn j ws))) 1,
+                     engine_reorg W (reopen (apply_pwrites (persistent s) (firstn j ws))) 0 with
+               | Ok s2, Ok s3 =>
+                   ex_ok_at s2 1 [Some 2; Some 5; None] [Some 301; None; None] [Some 101; None; None]
+                   && ex_ok_at s3 0 [Some 1; None; None] [None; None; None] [None; None; None]
+               | _, _ => false
+               end) (seq 0 (S (length ws)))
+      | _ => false
+      end
+  | None => false
+  end = true.
+Proof. vm_compute. reflexivity. Qed.
+
 (* ---- the write discipline the engine actually follows, reflected from a real run ----
    BrcGen.TableOrder is regenerated by `hx reflect` on every run from the recorded store events
    of one commit, one reorg and one clearCaches of the real engine.  The crash theorems above
@@ -111,3 +280,16 @@ Proof.
   repeat (destruct Hx as [<- | Hx]; [vm_compute; reflexivity|]). destruct Hx.
 Qed.
 Print Assumptions C04_same_tables_everywhere.
+
+(* The table order the store-level tie (Model/TieCrash.v) expects from the recorded writes of
+   commit_changes / reorg is the reflected one: block tables first (heights first) then the
+   versioned tables for a commit; versioned tables then block tables (heights last) for the
+   roll-back phase of a reorg. *)
+Definition vname (i : N) : string := nth (N.to_nat i) vtable_names EmptyString.
+
+Theorem C04_tie_table_order_is_reflected :
+  commit_tables = btable_names ++ map vname commit_vorder /\
+  reorg_tables = map vname reorg_vorder ++ [nth 1 btable_names EmptyString; nth 2 btable_names EmptyString;
+                                            nth 0 btable_names EmptyString].
+Proof. split; vm_compute; reflexivity. Qed.
+Print Assumptions C04_tie_table_order_is_reflected.
